@@ -20,6 +20,10 @@ CLAIMED = {
             "automaton over everything delivered to each instance, send outcomes and access-log counts. Two genuine defects are "
             "recorded as known findings (F06, F07).",
             "instances already finished at closure, instances killed by the forced cancel at shutdown, and HTTP/1 instances whose reader is parked behind pipelined bytes are not owed a disconnect"),
+    "C06": ("5/C06", "Seeded search over HTTP/1.x pipelines (1..5 requests, bodies, Connection headers, request maximum, "
+            "malformed request at any position, every segmentation mode) x application read/answer orders, judged against a "
+            "sequential model of a persistent connection using global event sequence numbers.",
+            "clients never send bytes after a request that asked to close; a fully arrived but unread request body may count as complete or not"),
 }
 
 NOT_APPLICABLE = {
